@@ -66,6 +66,22 @@ func Corpus() []*Hist {
 		{Kind: "corpus-pinset-subset-cached-file", Base: baseKey, Cap: 4, Files: []FileSpec{A, fa("c.bin", 3, 4)}, Ops: []Op{
 			{K: "fetchpyr", F: 0}, {K: "fetch", F: 0, Leaves: all(3)}, {K: "pinset", F: 0, Leaves: []int{0, 2}},
 			{K: "fetchpyr", F: 1}, {K: "fetch", F: 1, Leaves: all(2)}, {K: "gc"}}},
+		// seeded change C12-2 (the dirty test must sit INSIDE the DelFile closure): interleavings inside a run. The first candidate (A) is
+		// touched right before its DelFile call: every chunk pinned through its context by one Set call / read through its context
+		{Kind: "corpus-gc-pin-at-delfile-entry", Base: baseKey, Cap: 4, Files: []FileSpec{A, fa("c.bin", 3, 4)}, Ops: []Op{
+			{K: "fetchpyr", F: 0}, {K: "fetch", F: 0, Leaves: all(3)}, {K: "fetchpyr", F: 1}, {K: "fetch", F: 1, Leaves: all(2)},
+			{K: "gc", At: "entry", AtK: 0, Inner: []Op{{K: "pinset", F: -1}}}, {K: "gc"}}},
+		{Kind: "corpus-gc-read-at-delfile-entry", Base: baseKey, Cap: 4, Files: []FileSpec{A, fa("c.bin", 3, 4)}, Ops: []Op{
+			{K: "fetchpyr", F: 0}, {K: "fetch", F: 0, Leaves: all(3)}, {K: "upchunk", F: 0, L: 0, Pin: true}, {K: "fetchpyr", F: 1}, {K: "fetch", F: 1, Leaves: all(2)},
+			{K: "gc", At: "entry", AtK: 0, Inner: []Op{{K: "read", F: -1}}}}},
+		// the same pin right after candidate selection
+		{Kind: "corpus-gc-pin-at-selection", Base: baseKey, Cap: 4, Files: []FileSpec{A, fa("c.bin", 3, 4)}, Ops: []Op{
+			{K: "fetchpyr", F: 0}, {K: "fetch", F: 0, Leaves: all(3)}, {K: "fetchpyr", F: 1}, {K: "fetch", F: 1, Leaves: all(2)},
+			{K: "gc", Inner: []Op{{K: "pinset", F: -1}}}}},
+		// known: the pin arrives after the DelFile call of the file returned, before the run commits its batch: the chunks go, the pins stay
+		{Kind: "corpus-gc-pin-after-delfile", Base: baseKey, Cap: 4, Files: []FileSpec{A, fa("c.bin", 3, 4)}, Ops: []Op{
+			{K: "fetchpyr", F: 0}, {K: "fetch", F: 0, Leaves: all(3)}, {K: "fetchpyr", F: 1}, {K: "fetch", F: 1, Leaves: all(2)},
+			{K: "gc", At: "after", AtK: 0, Inner: []Op{{K: "pinset", F: -1}}}}},
 		// DELETE of a bare multi-chunk reference of which only the root chunk is stored: the manifest probe of the
 		// traversal needs the whole content -> 500, nothing changes (minimised correspondence disagreement)
 		{Kind: "corpus-delete-bare-root-only", Base: baseKey, Cap: 100, Files: []FileSpec{fb("b", 3, 1)}, Ops: []Op{
@@ -173,8 +189,23 @@ func Generate(r *hx.Rand) *Hist {
 			delete(present, f)
 		default:
 			op := Op{K: "gc"}
-			if r.Chance(1, 5) {
-				op.Inner = []Op{{K: "read", F: r.Intn(nf)}}
+			if r.Chance(2, 5) {
+				// an operation inside the run: after selection, right before or right after the DelFile call of a candidate
+				in := Op{K: "read", F: -1}
+				switch r.Intn(5) {
+				case 0, 1:
+					in = Op{K: "pinset", F: -1}
+				case 2:
+					in = Op{K: "fetch", F: -1, Leaves: all(4)}
+				case 3:
+					in = Op{K: "pinset", F: -1, NoCtx: true, Leaves: []int{r.Intn(4), r.Intn(4)}}
+				}
+				if r.Chance(1, 4) {
+					in.F = r.Intn(nf)
+				}
+				op.Inner = []Op{in}
+				op.At = []string{"", "entry", "entry", "after"}[r.Intn(4)]
+				op.AtK = r.Intn(2)
 			}
 			if r.Chance(1, 8) {
 				op.BatchSize = uint64(1 + r.Intn(4))
